@@ -29,12 +29,15 @@ def lastHi {α} [Inhabited α] (base : List (α × α)) : α := (base.getLast?.m
 
 /-- the loop over the base ranges in `createRangeBdry`: find the (merged) base range that contains
     [start,end]; `false` = "derived range must be restrictive" -/
+def blockMin {α} (o : Ops α) (cur : Option (α × α)) (cs : α) : α :=
+  match cur with
+  | none => cs
+  | some (mn, mx) => if o.contiguous mx cs then mn else cs
+
 def fitsBase {α} (o : Ops α) (start stop : α) : Option (α × α) → List (α × α) → Bool
   | _, [] => true                     -- fell off the end: no error is raised (see createRangeBdry)
   | cur, (cs, ce) :: rest =>
-    let rangeMin := match cur with
-      | none => cs
-      | some (mn, mx) => if o.contiguous mx cs then mn else cs
+    let rangeMin := blockMin o cur cs
     if !o.lt start rangeMin && !o.lt ce stop then true
     else if o.lt start rangeMin then false
     else fitsBase o start stop (some (rangeMin, ce)) rest
@@ -47,17 +50,18 @@ def orderedDisjoint {α} (o : Ops α) : List (α × α) → Bool
     !o.lt e1 s1 && !o.lt s2 s1 && o.lt e1 s2 && orderedDisjoint o ((s2, e2) :: rest)
 
 /-- `createRangeBdry` + `validateRangeBoundaries` -/
-def restrict {α} [Inhabited α] (o : Ops α) (base : List (α × α)) (parts : List (Part α)) : Option (List (α × α)) :=
+def stepPart {α} [Inhabited α] (o : Ops α) (base : List (α × α)) (p : Part α) : Option (α × α) :=
   let bmin := firstLo base
   let bmax := lastHi base
-  let step (p : Part α) : Option (α × α) :=
-    let start := p.lo.getD bmin
-    let stop := p.hi.getD bmax
-    if p.lo.isSome && o.lt start bmin then none
-    else if p.hi.isSome && o.lt bmax stop then none
-    else if !fitsBase o start stop none base then none
-    else some (start, stop)
-  match parts.mapM step with
+  let start := p.lo.getD bmin
+  let stop := p.hi.getD bmax
+  if p.lo.isSome && o.lt start bmin then none
+  else if p.hi.isSome && o.lt bmax stop then none
+  else if !fitsBase o start stop none base then none
+  else some (start, stop)
+
+def restrict {α} [Inhabited α] (o : Ops α) (base : List (α × α)) (parts : List (Part α)) : Option (List (α × α)) :=
+  match parts.mapM (stepPart o base) with
   | none => none
   | some rs => if rs.isEmpty then none else if orderedDisjoint o rs then some rs else none
 
@@ -136,6 +140,11 @@ def dec64LexOK (fd : Nat) (s : Bytes) : Bool :=
         -- minDecimal64 / denominator truncates toward zero: the magnitude is the same quotient
         if ip > maxU then false else if ip = maxU then fr ≤ maxL + 1 else true
 
+/-- an optional leading '+' (RFC 6020 §9.2.1) -/
+def stripPlus : Bytes → Bytes
+  | 43 :: r => r
+  | r => r
+
 /-- `Type.Validate` -/
 def validate (t : Ty) (s : Bytes) : Bool :=
   match t with
@@ -145,8 +154,8 @@ def validate (t : Ty) (s : Bytes) : Bool :=
      | none => false)
   | .uint w rs =>
     -- strconv.ParseUint: digits only (after the repair a leading '+' is accepted as RFC 6020 §9.2.1 allows)
-    (match (match s with | 43 :: r => r | r => r) with
-     | r => if allDigits r then (let v := Int.ofNat (natOf r); v ≤ 2 ^ w - 1 && inRanges rs v) else false)
+    (let r := stripPlus s
+     if allDigits r then (let v := Int.ofNat (natOf r); v ≤ 2 ^ w - 1 && inRanges rs v) else false)
   | .dec fd rs =>
     (match sfOfDecimalText s with
      | some f => dec64LexOK fd s && rs.any fun (a, b) => !(SF.flt f a || SF.fgt f b)
@@ -177,7 +186,7 @@ def initial : BaseKind → Ty
   | .int w => .int w [(-(2 ^ (w - 1) : Int), 2 ^ (w - 1) - 1)]
   | .uint w => .uint w [(0, 2 ^ w - 1)]
   | .dec fd => .dec fd [fdBounds fd]
-  | .str => .str [(0, 2 ^ 64 - 1)] 0
+  | .str => .str [(0, 2 ^ 32 - 1)] 0            -- NewString: the initial length range is that of uint32
   | .bool => .bool
   | .empty => .empty
   | .enum ns => .enum ns
@@ -194,6 +203,8 @@ def applyLevel (t : Ty) (lv : Level) : Option Ty :=
   match lv.restr with
   | none => some t
   | some parts =>
+    -- the parser has already refused boundaries that are not min / max / integer-value / decimal-value
+    if !(parts.all fun (lo, hi) => (lo = msg "min" || YC.numBoundaryOK lo) && (hi = msg "max" || YC.numBoundaryOK hi)) then none else
     match t with
     | .int w rs =>
       if lv.isLength then none else
@@ -211,6 +222,10 @@ def applyLevel (t : Ty) (lv : Level) : Option Ty :=
         (restrict intOps lens ps).map (fun l => .str l n)
     | _ => none          -- range / length do not apply to boolean, empty, enumeration
 
+/-- `getDefault`: a level's own default overrides the inherited one -/
+def nearer (own inherited : Option Bytes) : Option Bytes :=
+  match own with | some x => some x | none => inherited
+
 /-- `BuildType`: innermost level first; at every level the default in force must validate -/
 def build (k : BaseKind) (levels : List Level) : Option (Ty × Option Bytes) :=
   let rec go (t : Ty) (d : Option Bytes) : List Level → Option (Ty × Option Bytes)
@@ -219,7 +234,7 @@ def build (k : BaseKind) (levels : List Level) : Option (Ty × Option Bytes) :=
       match applyLevel t lv with
       | none => none
       | some t' =>
-        let d' := match lv.dflt with | some x => some x | none => d      -- getDefault: nearest definition wins
+        let d' := nearer lv.dflt d      -- getDefault: nearest definition wins
         match d' with
         | some dv => if validate t' dv then go t' d' rest else none
         | none => go t' d' rest
